@@ -2,6 +2,7 @@
 package c10
 
 import (
+	"bytes"
 	"fmt"
 	"sort"
 	"strings"
@@ -64,6 +65,30 @@ func (c *Case) Exec(t *eng.T) {
 			}
 			t.Fail("inherit:"+cls+":"+c.Label, "%s: rendering %s (step %d of %v) gives %q, reference %q [%s]", c.Label, r.Name, i+1, c.renderNames(), o.S, string(r.Want), c.ID())
 			return
+		}
+		if i > 0 {
+			continue
+		}
+		// the other ways of rendering the same template: the unbuffered variant into a writer that takes strings,
+		// and pulled into another template by include / ssi parsed
+		var buf bytes.Buffer
+		var uerr error
+		if site, msg, pan := eng.Protect(func() { uerr = tpl.ExecuteWriterUnbuffered(ctx(), &buf) }); pan || uerr != nil || buf.String() != o.S {
+			t.Fail("inherit:route-unbuffered:"+c.Label, "%s: ExecuteWriterUnbuffered of %s gives %q (error %v, panic %s %s); Execute gives %q [%s]", c.Label, r.Name, buf.String(), uerr, site, msg, o.S, c.ID())
+			return
+		}
+		for _, via := range []string{"{% include \"" + r.Name + "\" %}", "{% ssi \"" + r.Name + "\" parsed %}", "{% include name %}"} {
+			wt, wout := px.Compile(set, "<"+via+">")
+			if wt == nil {
+				t.Fail("inherit:route-compile:"+c.Label, "%s: %s does not compile: %s [%s]", c.Label, via, wout, c.ID())
+				return
+			}
+			wc := ctx()
+			wc["name"] = r.Name
+			if wo := px.Exec(wt, wc); wo.Failed() || wo.S != "<"+o.S+">" {
+				t.Fail("inherit:route-pulled-in:"+c.Label, "%s: <%s> renders %s; Execute of %s gives %q [%s]", c.Label, via, wo, r.Name, o.S, c.ID())
+				return
+			}
 		}
 	}
 	t.Outcome(strings.Join(outs, "|"))
@@ -170,8 +195,8 @@ type chain struct {
 	blocksFirst bool
 	// superAfter: a definition that both nests a new block and uses Super writes the nested block FIRST
 	superAfter bool
-	shape       string
-	levels      []*level // levels[0] = base
+	shape      string
+	levels     []*level // levels[0] = base
 }
 
 func superSrc(form int) string {
